@@ -93,7 +93,7 @@ const HOSTILE_STATEMENTS: &[&str] = &[
 impl Monitor for C09 {
     fn id(&self) -> &'static str { "C09" }
     fn rule(&self) -> &'static str {
-        "kinds: std (standard tables, hostile cell pools: i64 extremes, 1e308, subnormals; generated SELECT / aggregate statements with hostile literal pools: zero divisors, overflow operands, huge subscripts, inf/NaN casts, huge intervals, out-of-range make_timestamp parts), extract (C01's table / line generator: 64-bit extremes, out-of-range date parts, 7-digit fractions), json (C02's documents incl. non-documents), bytes (arbitrary bytes incl. invalid UTF-8), hostile (NaN / inf / -0.0 / i64 extremes / DST-gap local times / huge intervals through a fixed corpus of aggregate, DISTINCT, join, date_trunc, HAVING statements), each printed as text / json / csv; thorough adds one subprocess per time zone (zones with DST gaps). Oracle: FileExecutor returns Ok or Err - a panic (overflow checks on), abort, signal or hang is a violation. Non-trivial = the statement executed at least one admitted line; distinct by case hash"
+        "kinds: std (standard tables, hostile cell pools: i64 extremes, 1e308, subnormals; generated SELECT / aggregate statements with hostile literal pools: zero divisors, overflow operands, huge subscripts, inf/NaN casts, huge intervals, out-of-range make_timestamp parts), extract (C01's table / line generator: 64-bit extremes, out-of-range date parts, 7-digit fractions), json (C02's documents incl. non-documents), bytes (arbitrary bytes incl. invalid UTF-8), hostile (NaN / inf / -0.0 / i64 extremes / DST-gap local times / huge intervals through a fixed corpus of aggregate, DISTINCT, join, date_trunc, HAVING statements and the matrix of every arithmetic operator / two-argument function over every pair of operand types and 32-/64-bit boundary literals), each printed as text / json / csv; thorough adds one subprocess per time zone (zones with DST gaps). Oracle: FileExecutor returns Ok or Err - a panic (overflow checks on), abort, signal or hang is a violation. Non-trivial = the statement executed at least one admitted line; distinct by case hash"
     }
     fn assumptions(&self) -> Vec<String> { vec!["silent integer wrap-around is observed as an overflow panic of the chk profile; `as` casts are covered by the value oracles of C01/C03".into(), "hangs are decided by the driver's two-stage watchdog".into()] }
     fn sizes(&self, tier: Tier) -> Sizes { match tier { Tier::Quick => Sizes { cases: 24_000, min_nontrivial: 8_000 }, Tier::Thorough => Sizes { cases: 1_500_000, min_nontrivial: 400_000 } } }
